@@ -5,10 +5,12 @@ use super::{Checker, DiagnosticContext};
 pub struct AnalyzeErrorChecker;
 
 impl Checker for AnalyzeErrorChecker {
+    // every kind the analyzers report through `AnalyzeError`
     const CODES: &[DiagnosticCode] = &[
         DiagnosticCode::TypeNotFound,
         DiagnosticCode::AnnotationUsageError,
         DiagnosticCode::MissingTypeArgument,
+        DiagnosticCode::SyntaxError,
     ];
 
     fn check(context: &mut DiagnosticContext, _: &SemanticModel) {
